@@ -54,7 +54,7 @@ Eps  == C.ep
 Pr   == C.pr
 Rho  == Mu(Rho0, Ad(1, Eps))
 Enth == Ad(Ad(1, Eps), Dv(Pr, Rho0))
-RhoH == Mu(Rho0, Enth)                                        \* rho0 h = rho + p
+RhoH == Ad(Rho, Pr)                                           \* rho + p  (= rho0 h where there are baryons; a radiation region has rho0 = 0, p # 0)
 T(a, b)  == Ad(Mu(Mu(RhoH, W2), Mu(UD(a), UD(b))), Mu(Pr, G4(a, b)))
 HD(a, b) == Ad(G4(a, b), Mu(W2, Mu(UD(a), UD(b))))            \* h_mu_nu = g + u u
 En     == S4([a \in 0 .. 3 |-> S4([b \in 0 .. 3 |-> Mu(T(a, b), Mu(NU(a), NU(b)))])])
@@ -68,11 +68,12 @@ G4U(a, b) == IF a = 0 /\ b = 0 THEN Ng(Inv(Mu(Al, Al)))
              ELSE Sb(GU(a, b), Dv(Mu(BeU(a), BeU(b)), Mu(Al, Al)))
 TTrace == S4([a \in 0 .. 3 |-> S4([b \in 0 .. 3 |-> Mu(G4U(a, b), T(a, b))])])
 
-Lucky == DetG # 0 /\ Al # 0 /\ Sb(1, V2) # 0 /\ Rho0 # 0
+Lucky == DetG # 0 /\ Al # 0 /\ Sb(1, V2) # 0
 (* closed forms, checked on every state *)
 ClosedForms ==
     Lucky =>
         /\ S4([a \in 0 .. 3 |-> Mu(UU(a), UD(a))]) = Ng(Sb(1, V2))           \* U.U = -(1 - v^2), i.e. u.u = -1
+        /\ (Rho0 # 0 => Mu(Rho0, Enth) = RhoH)                                \* rho0 h = rho + p wherever h is defined
         /\ En = Sb(Mu(RhoH, W2), Pr)                                          \* E = rho0 h W^2 - p
         /\ \A i \in Sp : FluxD(i) = Mu(Mu(RhoH, W2), VD(i))                   \* S_i = rho0 h W^2 v_i
         /\ \A i, j \in Sp : T(i, j) = Ad(Mu(Mu(RhoH, W2), Mu(VD(i), VD(j))), Mu(Pr, G(i, j)))
